@@ -46,9 +46,14 @@ def build_clause(acc, c):
     n, es = c["n"], [tuple(e) for e in c["es"]]
     valid = {tuple(s) for s in down_closed_sets(n, es)} | {()}
     acc.cases += 1
+    from ..spaces import kinds_rotating
     for k in range(0, n + 1):
+      for off in (0, 1, 4, 5):
+        es4 = kinds_rotating(es, off)
+        if off and es4 == kinds_rotating(es, 0):
+            continue
         for dbg in itertools.combinations(range(n), k):
-            p = prog_of(dict(n=n, es=es, debug=list(dbg), res="t" * n, mc=1))
+            p = prog_of(dict(n=n, es=es4, debug=list(dbg), res="t" * n, mc=1))
             acc.evaluations += 1
             try:
                 build_gprog(p)
@@ -57,10 +62,10 @@ def build_clause(acc, c):
                 refused = True
             want_refused = dbg not in valid
             if want_refused:
-                acc.mark_nontrivial(("build", n, es, dbg))
+                acc.mark_nontrivial(("build", n, tuple(es4), dbg))
             if refused != want_refused:
-                acc.violation(V("debug_dependency_check", f"debug nodes {dbg} on shape {es}: builder {'refused' if refused else 'accepted'}, reference says {'refuse' if want_refused else 'accept'}",
-                                refused=refused), dict(c, dbg=list(dbg)), (), None, p.source())
+                acc.violation(V("debug_dependency_check", f"debug nodes {dbg} on shape {es4}: builder {'refused' if refused else 'accepted'}, reference says {'refuse' if want_refused else 'accept'}",
+                                refused=refused), dict(c, dbg=list(dbg), es4=es4), (), None, p.source())
 
 
 def sel_case(acc, c):
